@@ -334,6 +334,10 @@ class VisitNodeGenerations(OrderSpec):
         c.dag, c.ops = dag, ops
         return (dag,), {}
 
+    def replay(self, cfg, model, ob):
+        return ("import sys\nsys.path.insert(0, '/verif')\nfrom pyvc.replay_plan import run_visit_generations\n"
+                f"reproduced, detail = run_visit_generations({cfg['shape']!r}, {list(cfg['computed'])!r}, {cfg['fn']!r})\n")
+
     def call(self, c, args, kwargs):
         if c.cfg["fn"] == "nodes":
             fn = c.interp.world.lookup("cubed.runtime.pipeline:visit_nodes")
@@ -387,6 +391,10 @@ class PlanTotals(OrderSpec):
 
     def call(self, c, args, kwargs):
         return c.interp.call(c.FP, list(args), dict(kwargs))
+
+    def replay(self, cfg, model, ob):
+        return ("import sys\nsys.path.insert(0, '/verif')\nfrom pyvc.replay_plan import run_plan_totals\n"
+                f"reproduced, detail = run_plan_totals({cfg['shape']!r}, {dict(model)!r})\n")
 
     def ensures(self, c, a, k, fp):
         dag, ops = c.dag, c.ops
